@@ -414,6 +414,10 @@ def run(ctx) -> None:
         cf_ops = [0x02, 0x03, 0x04, 0x05, 0x06, 0x07, 0x10, 0x11, 0x12, 0x13, 0x14, 0x15, 0x16, 0x17, 0x18, 0x19, 0x1A, 0x1B, 0x1C, 0x1D, 0x1E, 0x1F, 0xFE, 0x01]
         res += pmap(_shard_shapes, [([(p, op) for op in c], tails[:1], states[:1], [0x1FFFD, 0x1FFFE, 0xFFFF0]) for p in (None, 0x32)
                                     for c in chunks(cf_ops, 4)])
+    # opcodes with a displacement byte ([r3+-n], [(m)+-n]; none of them carries a 20-bit immediate): operand bytes 0x80 and above
+    disp_ops = list(range(0x90, 0x97)) + list(range(0xB0, 0xB7)) + list(range(0x98, 0x9F)) + list(range(0xB8, 0xBF)) + \
+        [0xE0, 0xE1, 0xE2, 0xE8, 0xE9, 0xEA, 0xF0, 0xF1, 0xF2, 0xF8, 0xF9, 0xFA, 0x56, 0x5E, 0xE3, 0xEB]
+    res += pmap(_shard_shapes, [([(p, op) for op in c], [bytes.fromhex("b484858687")], states[:1], []) for p in (None, 0x32) for c in chunks(disp_ops, nproc() // 2)])
     # register-only instructions at the boundary values of every register width (no memory operand, so no wrap questions)
     bnd = [{"bpx": BPX[0], "bg": bg, "F": f, "fill": 0x10B} for f, bg in
            ((0, {"BA": 0xFFFF, "I": 0xFFFF, "X": 0xFFFFF, "Y": 0xFFFFF, "U": 0xFFFFF, "S": 0xFFFFF}),
